@@ -262,6 +262,21 @@ class Roles:
                                 if role and self.block.get(k) != role:
                                     self.block[k] = role
                                     changed = True
+                    elif e.kind == "call" and head(strip(strip(e["term"])[1])) == "ite":
+                        # (f if cond else g)(args): the arguments reach both
+                        c = strip(e["term"])
+
+                        def alts(t_):
+                            t_ = strip(t_)
+                            return alts(t_[2]) + alts(t_[3]) if head(t_) == "ite" else [t_]
+                        for fn in alts(c[1]):
+                            if head(fn) == "glob" and fn[1] in self.P.functions and fn[1].startswith(MOD):
+                                cs = self.A.summary(fn[1])
+                                bind = self.A.bind_call(cs, ("call", fn, c[2], c[3]))
+                                for ptermk, arg in (bind or {}).items():
+                                    role = self._role_of(q, arg)
+                                    if role:
+                                        changed |= self._set(fn[1], ptermk, role)
                     elif e.kind == "call":
                         c = strip(e["term"])
                         fn = strip(c[1])
@@ -274,7 +289,7 @@ class Roles:
                             selfarg = ("param", "self")
                         elif head(fn) == "attr" and fn[1] == ("param", "self") and f.cls and self.P.find_method(f.cls, fn[2]):
                             callee = self.P.find_method(f.cls, fn[2])        # self.helper(...)
-                            selfarg = ("param", "self")
+                            selfarg = None if self.P.functions[callee].is_static else ("param", "self")
                         if callee is None or callee not in self.P.functions:
                             continue
                         cs = self.A.summary(callee)
